@@ -834,6 +834,10 @@ class Blockwise(ArrayExpr):
                             # Broadcast operand axis: output block ranges do
                             # not select the same blocks of this operand.
                             return None
+                        elif 0 in arg.chunks[dim_idx]:
+                            # Slicing the operand to whole blocks does not keep
+                            # exactly those blocks when some have zero width.
+                            return None
                         else:
                             first, last = br
                             if last < first:  # Empty
